@@ -518,7 +518,7 @@ Proof.
 Qed.
 
 Definition name_env (ext : list str) (names : list (str * str)) : Ptg.xlsb_env :=
-  Ptg.Build_xlsb_env ext (map fst names).
+  Ptg.Build_xlsb_env ext (map fst names) None.
 
 Lemma brt_name_enc : forall n e h ext names,
   Ptg.wf_xlsb (name_env ext names) e = true -> name_ok n = true ->
